@@ -182,6 +182,94 @@ def check_z_variants(res, v, name, tree):
         res.dims['Z-segment variants'] += 1
 
 
+def over_cardinality(parent, ref):
+    """a child name that occurs more often under one parent than the structure allows"""
+    decl = st.declared_children(ref)
+    count = {}
+    for c in parent.children:
+        count[c.name] = count.get(c.name, 0) + 1
+    for n, k in count.items():
+        if n in decl:
+            mx = decl[n][2][1]
+            if mx not in (-1, None) and k > mx:
+                return '%d x %s under one %s (at most %s)' % (k, n, parent.name, mx)
+    for c in parent.children:
+        if c.name in decl and decl[c.name][0] == 'GRP' and c.classname == 'Group':
+            r = over_cardinality(c, decl[c.name][1])
+            if r:
+                return r
+    return None
+
+
+def recur_points(ref):
+    """[(index in depth-first order, segment name)] of the non-repeatable segments that lie inside at least one group
+    and have a repeatable group among their ancestors: when such a segment recurs, a new repetition of that group is due"""
+    out = []
+    order = []
+
+    def walk(r, chain, leads):
+        kids = st.children_of(r)
+        for c in kids:
+            cname, cref, card, cls = c
+            if cls == 'GRP':
+                sub = st.children_of(cref)
+                first = sub[0] if sub else None
+                walk(cref, chain + [card[1]], leads + ([first[0]] if first is not None and first[3] == 'SEG' else []))
+            else:
+                order.append(cname)
+                if chain and card[1] == 1 and any(mx == -1 or (mx or 0) > 1 for mx in chain):
+                    out.append((len(order) - 1, cname, [x for x in leads if x != cname]))
+    walk(ref, [], [])
+    return order, out
+
+
+def check_recur_variants(res, v, name):
+    """the all-children instance cut after a non-repeatable segment that sits in a chain of groups, followed by that
+    segment once more: the finder has to climb to the nearest repeatable group and open a new repetition of it; no parent
+    may end up with more children of a name than the structure allows"""
+    from hl7apy.parser import parse_message
+    ref = tables.msg_ref(v, name)
+    order, pts = recur_points(ref)
+    if not order or order[0] != 'MSH':
+        return
+    occ = st.structure_info(v, name)['occ']
+    variants = []
+    for p, seg, leads in pts:
+        variants.append((p, seg, order[:p + 1] + [seg]))
+        lean = ['MSH'] + [x for x in leads if x != 'MSH'] + [seg, seg]
+        if lean != variants[-1][2]:
+            variants.append((p, seg, lean))
+    for p, seg, names in variants:
+        if any(occ.get(n, 0) != 1 for n in set(names)):
+            # the exactness clause of the statement speaks of instances whose segment names each occur at one place
+            res.dims['recurring-segment variants skipped (a name of the instance occurs at several places)'] += 1
+            continue
+        text = '\r'.join([st.msh_line(v, name)] + names[1:])
+        point = {'v': v, 'name': name, 'label': 'all', 'recur_at': p}
+        res.evaluations += 1
+        res.enumerated += 1
+        res.states += 1
+        res.transitions += 1
+        res.nontrivial += 1
+        try:
+            m = parse_message(text, validation_level=TOLERANT, find_groups=True)
+        except Exception as e:
+            res.violation('recur-raises|%s|%s|%s' % (v, name, exc_class(e)), 'all-children instance of %s (v%s) cut after %s (segment %d) and %s once more: raises %s: %s'
+                          % (name, v, seg, p, seg, exc_class(e), str(e)[:160]), point, len(names))
+            continue
+        res.validated += 1
+        flatnames = [x.name for x in st.parsed_flat(m)]
+        if flatnames != names:
+            res.violation('recur-%s|%s|%s' % ('drop' if len(flatnames) < len(names) else 'order', v, name), '%s (v%s) with %s recurring after segment %d: input %s, '
+                          'tree flattens to %s' % (name, v, seg, p, names, flatnames), point, len(names))
+            continue
+        bad = unsound(m, ref) or over_cardinality(m, ref)
+        if bad:
+            res.violation('recur-cardinality|%s|%s' % (v, name), '%s (v%s) with the non-repeatable %s recurring after segment %d: %s; tree %s'
+                          % (name, v, seg, p, bad, brief(st.parsed_shape(m))), point, len(names))
+        res.dims['recurring-segment variants'] += 1
+
+
 def units(tier):
     us = []
     for v in VERSIONS:
@@ -248,6 +336,8 @@ def run_unit(unit, tier):
             check_instance(res, v, name, label, tree)
             if label == 'all' and (tier != 'quick' or sum(map(ord, name)) % 3 == 0):
                 check_z_variants(res, v, name, tree)
+            if label == 'all':
+                check_recur_variants(res, v, name)
         if n:
             res.sample({'v': v, 'structure': name, 'instances': n}, cap=3)
     res.expected_size = res.enumerated
@@ -264,7 +354,9 @@ def replay(point, res):
     v, name = point['v'], point['name']
     for label, tree in st.instances(v, name):
         if label == point['label']:
-            if 'z_at' in point:
+            if 'recur_at' in point:
+                check_recur_variants(res, v, name)
+            elif 'z_at' in point:
                 check_z_variants(res, v, name, tree)
             else:
                 check_instance(res, v, name, label, tree)
